@@ -977,4 +977,162 @@ Proof.
   intros mk cfg s0 ops Hn H0. apply c17_synack_ok_trace_pre. eapply syn_pre_new; eauto.
 Qed.
 
+Theorem c17_fin_after_data_guarded_trace : forall cfg ops (s : vsock),
+  forallb (c17_fin_after_data_guarded cfg) (ftrace cci s ops) = true.
+Proof.
+  intros cfg ops s. apply (ftrace_forallb cci (fun _ => True)); auto.
+  intros s0 o _. apply c17_fin_after_data_guarded_step.
+Qed.
+
+(* while the dispatcher's channel is open (no VoCloseInbox so far) only the bound is needed *)
+Definition c17_fin_after_data_bounded (cfg : vconfig) (st : fstep) : bool :=
+  if c17_seg_bounds (fs_post st) then c17_fin_after_data_ok cfg st else true.
+
+Definition not_close_inbox (o : vop) : Prop := o <> VoCloseInbox.
+
+Lemma vstep_inbox_open (s : vsock) o :
+  not_close_inbox o -> v_inbox_closed s = false -> v_inbox_closed (vstep_state cci s o) = false.
+Proof.
+  intros Hn Hc. unfold vstep_state. destruct o; cbn [vstep].
+  - exact Hc.
+  - exact Hc.
+  - destruct (poll cci (VSockRec.set_sends s script)) as [s' r] eqn:E. cbn [fst].
+    rewrite poll_unfold in E. pose proof (poll_loop_frame0 cci 64 (poll_init (VSockRec.set_sends s script))) as F.
+    rewrite E in F. cbn [fst] in F. destruct F as (_ & _ & _ & _ & _ & F6 & _). rewrite F6. exact Hc.
+  - rewrite Hc. exact Hc.
+  - exfalso. apply Hn. reflexivity.
+  - destruct (writer_dropped _); [|destruct (poll_write _ _) as [[tx1 r] w]]; exact Hc.
+  - destruct (writer_dropped _); [|destruct (poll_flush _) as [[tx1 r] w]]; exact Hc.
+  - destruct (writer_dropped _); [|destruct (poll_shutdown _) as [[tx1 r] w]]; exact Hc.
+  - destruct (reader_dropped _); [|destruct (rx_read _ _) as [[rx1 r] w]]; exact Hc.
+  - destruct (reader_dropped _); [|destruct (rx_drop_reader _) as [rx1 w]]; exact Hc.
+  - destruct (drop_writer _) as [tx1 w]; exact Hc.
+Qed.
+
+Theorem c17_fin_after_data_open_trace : forall cfg ops (s : vsock),
+  v_inbox_closed s = false -> Forall not_close_inbox ops ->
+  forallb (c17_fin_after_data_bounded cfg) (ftrace cci s ops) = true.
+Proof.
+  intros cfg. induction ops as [|o rest IH]; intros s Hc Hops; [reflexivity|].
+  inversion Hops as [|? ? Ho Hrest]; subst.
+  rewrite ftrace_cons. cbn [forallb]. apply andb_true_intro. split.
+  - unfold c17_fin_after_data_bounded. destruct (c17_seg_bounds _) eqn:Eb; [|reflexivity].
+    apply c17_fin_after_data_ok_step_open; assumption.
+  - destruct (poll_finished _); [reflexivity|]. apply IH; [|exact Hrest]. apply vstep_inbox_open; assumption.
+Qed.
+
+Lemma vsock_new_inbox_open mk cfg (s0 : vsock) : vsock_new cci mk cfg = Some s0 -> v_inbox_closed s0 = false.
+Proof.
+  unfold vsock_new. intros H.
+  destruct (match (if vc_incoming cfg then None else _) with Some r => _ | None => _ end); [|discriminate].
+  injection H as <-. reflexivity.
+Qed.
+
 End WithCC.
+
+(* ================================================================== witnesses *)
+(* c17_fin_after_data_ok as written is FALSE of the model: 100 bytes written and never segmented, the
+   dispatcher's channel closed, and the FIN that the channel-closed arm of the receive loop sends at
+   once refused by the transport: the poll dies in FinWait1 (the arm sets Closed only after the send).
+   The monitored bound holds in that step; both guards fail, as they must. *)
+Definition fad_ops : list vop := [VoWrite (repeat 7 100); VoCloseInbox; VoPoll [TIoErr]].
+
+Definition fad_refuted_b : bool :=
+  match vsock_new (fixed_cc 4096) (fun _ _ => tt) (wit_cfg 1500) with
+  | Some s0 =>
+      let tr := ftrace (fixed_cc 4096) s0 fad_ops in
+      negb (forallb (c17_fin_after_data_ok (wit_cfg 1500)) tr) &&
+      forallb (fun st => c17_seg_bounds (fs_post st)) tr &&
+      match last tr {| fs_now := 0; fs_pre := fp_of_vsock (fixed_cc 4096) s0; fs_event := FeFlush;
+                       fs_result := FrNone; fs_disp_woken := false; fs_self_woken := false;
+                       fs_post := fp_of_vsock (fixed_cc 4096) s0 |} with
+      | st => match f_state (fs_pre st), f_state (fs_post st), fs_result st with
+              | Established, FinWait1 _, FrPoll (PollReadyErr ErrSend) [] _ _ =>
+                  (f_tx_len (fs_post st) =? 100) && (f_seg_len_bytes (fs_post st) =? 0)
+              | _, _, _ => false
+              end
+      end
+  | None => false
+  end.
+
+Theorem c17_fin_after_data_ok_refuted :
+  exists cfg ops s0,
+    vsock_new (fixed_cc 4096) (fun _ _ => tt) cfg = Some s0 /\
+    forallb (c17_fin_after_data_ok cfg) (ftrace (fixed_cc 4096) s0 ops) = false.
+Proof.
+  exists (wit_cfg 1500), fad_ops.
+  destruct (vsock_new (fixed_cc 4096) (fun _ _ => tt) (wit_cfg 1500)) as [s0|] eqn:E; [|vm_compute in E; discriminate].
+  exists s0. split; [reflexivity|].
+  assert (H : fad_refuted_b = true) by (vm_compute; reflexivity).
+  unfold fad_refuted_b in H. rewrite E in H.
+  apply andb_true_iff in H as (H & _). apply andb_true_iff in H as (H & _).
+  apply negb_true_iff in H. exact H.
+Qed.
+
+Theorem c17_fin_after_data_refuted_shape : fad_refuted_b = true.
+Proof. vm_compute. reflexivity. Qed.
+
+(* the guard is satisfiable by a reachable step that really closes on own initiative: the D13 regression
+   trace ends with a poll that moves Established -> FinWait1 with the guard true *)
+Definition fad_guard_witness_b : bool :=
+  match vsock_new (fixed_cc 1584) (fun _ _ => tt) (wit_cfg 576) with
+  | Some s0 =>
+      let tr := ftrace (fixed_cc 1584) s0 d13_ops in
+      existsb (fun st => c17_fin_after_data_guard st &&
+                         negb (pre_local_fin (f_state (fs_pre st))) &&
+                         match f_state (fs_post st) with FinWait1 _ => true | _ => false end) tr &&
+      forallb (c17_fin_after_data_guarded (wit_cfg 576)) tr
+  | None => false
+  end.
+
+Example c17_fin_after_data_guard_satisfiable : fad_guard_witness_b = true.
+Proof. vm_compute. reflexivity. Qed.
+
+(* c17_synack_ok needs 0 <= max_retx: with a negative limit the first SYN-ACK already exceeds it *)
+Definition synack_neg_cfg : vconfig :=
+  {| vc_incoming := true; vc_ipv4 := true; vc_link_mtu := 1500; vc_rx_buf := 1048576;
+     vc_tx_init := 32768; vc_tx_max := 1048576; vc_nagle := true; vc_max_retx := -1;
+     vc_inactivity := 10000000000; vc_wait_last_ack := true; vc_mtu_probe_max_retx := 1;
+     vc_isn := 100; vc_remote_seq := 1; vc_remote_conn_id := 7; vc_remote_wnd := 1048576;
+     vc_remote_ts := 0; vc_syn_sent := 0; vc_now0 := 1000000000 |}.
+
+Theorem c17_synack_ok_negative_limit_refuted :
+  exists cfg ops s0,
+    vsock_new (fixed_cc 4096) (fun _ _ => tt) cfg = Some s0 /\ vc_max_retx cfg < 0 /\
+    forallb (c17_synack_ok cfg) (ftrace (fixed_cc 4096) s0 ops) = false.
+Proof.
+  exists synack_neg_cfg, [VoPoll []].
+  destruct (vsock_new (fixed_cc 4096) (fun _ _ => tt) synack_neg_cfg) as [s0|] eqn:E; [|vm_compute in E; discriminate].
+  exists s0. split; [reflexivity|]. split; [reflexivity|].
+  vm_compute in E. injection E as <-. vm_compute. reflexivity.
+Qed.
+
+(* and with a non-negative limit the precondition is met by every connection vsock_new builds; an
+   incoming connection really goes through the handshake states *)
+Definition synack_witness_b : bool :=
+  match vsock_new (fixed_cc 4096) (fun _ _ => tt)
+          {| vc_incoming := true; vc_ipv4 := true; vc_link_mtu := 1500; vc_rx_buf := 1048576;
+             vc_tx_init := 32768; vc_tx_max := 1048576; vc_nagle := true; vc_max_retx := 2;
+             vc_inactivity := 10000000000; vc_wait_last_ack := true; vc_mtu_probe_max_retx := 1;
+             vc_isn := 100; vc_remote_seq := 1; vc_remote_conn_id := 7; vc_remote_wnd := 1048576;
+             vc_remote_ts := 0; vc_syn_sent := 0; vc_now0 := 1000000000 |} with
+  | Some s0 =>
+      let tr := ftrace (fixed_cc 4096) s0
+                  [VoPoll []; VoSetNow 1300000000; VoPoll []; VoSetNow 1600000000; VoPoll []] in
+      match map (fun st => f_state (fs_post st)) tr with
+      | [SynAckSent 1; SynAckSent 1; SynAckSent 2; SynAckSent 2; SynAckSent 2] =>
+          match last tr {| fs_now := 0; fs_pre := fp_of_vsock (fixed_cc 4096) s0; fs_event := FeFlush;
+                           fs_result := FrNone; fs_disp_woken := false; fs_self_woken := false;
+                           fs_post := fp_of_vsock (fixed_cc 4096) s0 |} with
+          | st => match fs_result st with
+                  | FrPoll (PollReadyErr ErrMaxSynAckRetransmissionsReached) _ _ _ => true
+                  | _ => false
+                  end
+          end
+      | _ => false
+      end
+  | None => false
+  end.
+
+Example c17_synack_handshake_reachable : synack_witness_b = true.
+Proof. vm_compute. reflexivity. Qed.
